@@ -26,8 +26,10 @@ var dirSeq atomic.Int64
 // TempDir creates a per-run directory on tmpfs, removed when the run ends.
 // The name is not deterministic; never log it (simrt shortens paths below it).
 func TempDir(s *simrt.Sim) string {
-	d, err := os.MkdirTemp("/dev/shm", fmt.Sprintf("ksim-%d-%d-", os.Getpid(), dirSeq.Add(1)))
-	if err != nil {
+	// fixed-width name: the length of paths must not vary between processes
+	d := fmt.Sprintf("/dev/shm/ksim-%08d-%08d", os.Getpid()%100000000, dirSeq.Add(1)%100000000)
+	os.RemoveAll(d)
+	if err := os.Mkdir(d, 0o755); err != nil {
 		panic(err)
 	}
 	s.AtEnd(func() { os.RemoveAll(d) })
